@@ -257,6 +257,12 @@ Definition orig_reader_name (q : query) : option string :=
 
 Definition not_err (t : term) : bool := match t with TL (TZ _ :: _) => true | _ => false end.
 
+Definition strip_vals (t : term) : term :=
+  match t with
+  | TL [r; TL rows; more] => TL [r; TL (map (fun row => match row with TL [k; _] => k | x => x end) rows); more]
+  | x => x
+  end.
+
 Definition classify (q : query) (sqlo kvo : term) (s : spec) (k korig : kvs) : term :=
   let ms := obs_spec s q in
   if negb (term_eqb sqlo ms) then v_viol ms
@@ -272,9 +278,12 @@ Definition classify (q : query) (sqlo kvo : term) (s : spec) (k korig : kvs) : t
            then v_known "kv_prefix_result_flags" ms
            else if strange_prefix p && not_err kvo then v_known "kv_prefix_scan_raw_range" ms else v_viol ms
        | QPfxc p _ _ _ _ _ =>
-           (* "" / all-0xff prefix: the code as found answers with rows of every table (raw values,
-              not reproducible by the model) where SQLite rejects the prefix *)
-           if strange_prefix p && not_err kvo then v_known "kv_prefix_scan_raw_range" ms else v_viol ms
+           (* the code as found answers with rows of other tables: their keys are reproduced by the model,
+              their raw msgpack values are not; "" / all-0xff prefixes are not rejected *)
+           if (strange_prefix p && not_err kvo)
+              || term_eqb (strip_vals kvo) (strip_vals (obs_kv true k q))
+              || term_eqb (strip_vals kvo) (strip_vals (obs_kv true korig q))
+           then v_known "kv_prefix_scan_raw_range" ms else v_viol ms
        | _ => v_viol ms
        end.
 
